@@ -337,6 +337,9 @@ def c01_catalogue(tier: str) -> List[dict]:
          2),
         ('r1-abs', [('R1', [N('s')]), ('P1', [E(A('a'), 'b')]),
                     ('R1/$', [E(A('b'), 'z')])], 2),
+        # the parent cycles more often than the child
+        ('p1-p2', [('P1', [N('a')]), ('P2', [E(A('a'), 'b')])], 3),
+        ('p1-offp2', [('P1', [N('a')]), ('+P1/P2', [E(A('a'), 'b')])], 3),
     ]
     for name, secs, fcp in two:
         if tier == 'quick' and name == 'r1-abs':
